@@ -34,9 +34,9 @@ func init() {
 // once. The reference store hands every one of them the same stored request object; what the race detector reports for this
 // workload is attributed to that single root cause by the aggregator. Panics and fatal errors are violations as everywhere.
 func c19shared(c *run.Ctx) {
-	rounds := 6
+	rounds := 40
 	if !c.Quick() {
-		rounds = 60
+		rounds = 300
 	}
 	for round := 0; round < rounds; round++ {
 		w := world.New(world.Opts{JWTAccess: round%2 == 1})
